@@ -39,6 +39,11 @@ def run(rep, tier):
     # every exact predicate this property rests on is a sign of the orientation kernel (rules shared with C03)
     from . import c03 as _c03
     _c03.kernel_rules(rep, F, "R14.11")
+    # the ring-vs-ring tests are relate matrices: no branch of the relate pipeline may depend on rounded arithmetic (C01 R1.5)
+    from . import c01 as _c01
+    from ..report import Alias as _Alias
+    rep.rule("R14.12", "the relate pipeline behind the ring tests decides only on orientation signs and coordinate comparisons of input coordinates (C01 R1.5)")
+    _c01.exactness(_Alias(rep, "R14.12"), F)
 
 
 def defaults(rep, F):
